@@ -7,6 +7,7 @@ package main
 // Cases: for every request and response type a valid base payload and every single edit of every constrained leaf.
 
 import (
+	"math/rand"
 	"encoding/json"
 	"fmt"
 	"reflect"
@@ -308,6 +309,139 @@ func c05esGen(cfg config, emit func(Case)) {
 	}
 }
 
+// type-confused payloads on the receive path of the receiving role
+func c05tGen(cfg config, emit func(Case)) {
+	rolesInit()
+	for _, m := range allMsgTypes() {
+		if !m.isReq {
+			continue
+		}
+		v, ok := stubs.ValidValueMode(m.t, rand.New(rand.NewSource(cfg.seed+m.idx)), 1)
+		if !ok {
+			continue
+		}
+		good, _ := json.Marshal(v.Interface())
+		var obj map[string]json.RawMessage
+		_ = json.Unmarshal(good, &obj)
+		var keys []string
+		for k := range obj {
+			keys = append(keys, k)
+		}
+		sort.Strings(keys)
+		payloads := []string{"42", `"text"`, "[1,2]"}
+		anyField := map[string]bool{}
+		for i := 0; i < m.t.NumField(); i++ {
+			f := m.t.Field(i)
+			if f.Type.Kind() == reflect.Interface {
+				anyField[strings.Split(f.Tag.Get("json"), ",")[0]] = true
+			}
+		}
+		for _, k := range keys {
+			if anyField[k] {
+				continue // interface{} fields accept every JSON type
+			}
+			raw := strings.TrimSpace(string(obj[k]))
+			var repl string
+			switch {
+			case strings.HasPrefix(raw, `"`):
+				repl = "12345"
+			case strings.HasPrefix(raw, "{"), strings.HasPrefix(raw, "["):
+				repl = `"confused"`
+			case raw == "true" || raw == "false":
+				repl = `"yes"`
+			default:
+				repl = `"7"`
+			}
+			o2 := map[string]json.RawMessage{}
+			for kk, vv := range obj {
+				o2[kk] = vv
+			}
+			o2[k] = json.RawMessage(repl)
+			b, _ := json.Marshal(o2)
+			payloads = append(payloads, string(b))
+		}
+		// receiver role
+		pp := m.t.PkgPath()
+		rel := pp[strings.Index(pp, "ocpp-go/")+8:]
+		key := "p" + strings.NewReplacer("/", "_", ".", "").Replace(rel) + "." + m.t.Name()
+		lo, hi := int64(0), int64(1)
+		if m.version == "201" {
+			lo, hi = 2, 3
+		}
+		recv := int64(-1)
+		for r := lo; r <= hi; r++ {
+			if _, ok := stubs.HandlerSetter(int(r))[key]; ok && recv < 0 {
+				recv = r
+			}
+		}
+		if recv < 0 {
+			continue
+		}
+		for pi, pl := range payloads {
+			id := "t" + strconv.FormatInt(nextE, 10)
+			nextE++
+			frames, calls := c05Inject(recv, fmt.Sprintf(`[2,"%s","%s",%s]`, id, m.feature, pl))
+			obs := []int64{-int64(len(frames))}
+			if len(frames) == 1 {
+				var arr []json.RawMessage
+				_ = json.Unmarshal(frames[0], &arr)
+				var typ int64
+				var rid, code string
+				if len(arr) >= 3 {
+					_ = json.Unmarshal(arr[0], &typ)
+					_ = json.Unmarshal(arr[1], &rid)
+					_ = json.Unmarshal(arr[2], &code)
+				}
+				if rid != id {
+					typ = -typ
+				}
+				obs = append([]int64{typ}, cw.LP([]byte(code))...)
+			}
+			if calls != 0 {
+				obs = append(obs, -44)
+			}
+			emit(Case{Class: "json-type", Input: []int64{b2i(m.version == "201"), m.idx, int64(pi)}, Obs: obs,
+				Comment: fmt.Sprintf("%s/%s payload %s", m.version, m.feature, pl)})
+		}
+	}
+}
+
+func c05Inject(role int64, frame string) ([][]byte, int) {
+	take := func() [][]byte {
+		switch role {
+		case 0:
+			return roleFakeC16.TakeWritten()
+		case 2:
+			return roleFakeC201.TakeWritten()
+		case 1:
+			var o [][]byte
+			for _, f := range roleFakeS16.TakeWritten() {
+				o = append(o, f.Data)
+			}
+			return o
+		}
+		var o [][]byte
+		for _, f := range roleFakeS201.TakeWritten() {
+			o = append(o, f.Data)
+		}
+		return o
+	}
+	take()
+	roleRec.Take()
+	switch role {
+	case 0:
+		_ = roleFakeC16.Inject([]byte(frame))
+	case 2:
+		_ = roleFakeC201.Inject([]byte(frame))
+	case 1:
+		_ = roleFakeS16.Inject("c1", []byte(frame))
+	default:
+		_ = roleFakeS201.Inject("c1", []byte(frame))
+	}
+	sched.Settle()
+	return take(), len(roleRec.Take())
+}
+
 func init() {
 	none := func(in []int64) []int64 { return []int64{-1} }
 	properties["c05"] = []*Entry{
@@ -315,5 +449,6 @@ func init() {
 		{Name: "c05vs", Eval: none, Gen: c05vsGen},
 		{Name: "c05e", Eval: none, Gen: c05eGenCached},
 		{Name: "c05es", Eval: none, Gen: c05esGen},
+		{Name: "c05t", Eval: none, Gen: c05tGen},
 	}
 }
